@@ -39,6 +39,11 @@ SIG_ALIAS = "C20:type-punned-access-exploited-by-gcc"
 SIG_EXPR = "C20:expr-data-refused"
 SIG_BLK = "C20:block-typed-param-assert"
 SIG_NAME = "C20:item-name-not-c-identifier"
+SIG_DUPPARAM = "C20:proto-duplicate-param-names"
+SIG_UNDECL = "C20:forward-or-global-not-declared"
+SIG_STATIC = "C20:static-definition-after-extern-declaration"
+SIG_HDR = "C20:name-collides-with-included-header"
+SIG_LREF = "C20:lref-data-unhandled"
 SIG_LD = "C20:ldouble-const-misprinted"
 SIG_REF = "C20:scalar-data-ref-is-value"
 SIG_VARIADIC = "C20:variadic-proto-without-named-param"
@@ -527,6 +532,52 @@ def attribute_ub(st, text, plan, is_prog):
     return [SIG_WRAP, SIG_ALIAS]
 
 
+def nan_sign_only(st, text, plan):
+    """True when, on every input of the plan, all engines return the same value and call log and their
+    buffers differ from MIR_interp's only in the sign bit of 8-byte slots holding a NaN in both (x86
+    arithmetic yields the negative default NaN, gcc's constant folder the positive one: not an
+    observable difference of MIR semantics)"""
+    rc, lines, err = st.engine(text, plan, "nanq", quiet=False)
+    res, errs = progtie.parse(lines)
+    if rc != 0 or errs or not res:
+        return False
+    for r in res:
+        if r["same"]:
+            continue
+        vals = [x.rstrip("*") for x in r["results"]]
+        if any(v != vals[0] or v.startswith("!") for v in vals):
+            return False
+    mem, log = {}, {}
+    for l in lines:
+        t = l.split()
+        if l.startswith("M ") and len(t) >= 4:
+            mem.setdefault(t[1], {}).setdefault(t[2], []).append(t[3])
+        if l.startswith("L "):
+            log.setdefault(t[1], {}).setdefault(t[2], []).append(" ".join(t[3:]))
+    for fn, per in mem.items():
+        ref = per.get("interp")
+        if not ref:
+            return False
+        for eng, dumps in per.items():
+            if eng == "interp":
+                continue
+            if log.get(fn, {}).get(eng) != log.get(fn, {}).get("interp") or len(dumps) != len(ref):
+                return False
+            for a, b in zip(ref, dumps):
+                if len(a) != len(b):
+                    return False
+                for off in range(0, len(a) // 2):
+                    if a[2 * off:2 * off + 2] == b[2 * off:2 * off + 2]:
+                        continue
+                    slot = 32 + ((off - 32) // 8) * 8
+                    wa = int.from_bytes(bytes.fromhex(a[2 * slot:2 * slot + 16]), "little")
+                    wb = int.from_bytes(bytes.fromhex(b[2 * slot:2 * slot + 16]), "little")
+                    isnan = lambda w: (w >> 52) & 0x7ff == 0x7ff and (w & ((1 << 52) - 1)) != 0
+                    if not (isnan(wa) and isnan(wb) and (wa ^ wb) == 1 << 63):
+                        return False
+    return True
+
+
 # ------------------------------------------------------------------------------------------------ stage B
 def rewrite_known(P):
     """keep the random stream inside what mir2c translates correctly today: the two listed template defects
@@ -573,6 +624,23 @@ def stage_programs(ck, st, nprogs, per_batch, viol, known_present):
             key = ("differ", pat)
         classes.setdefault(key, []).append(f)
     n_wrap = 0
+    n_nan = 0
+    # differences that are only the sign of a NaN stored into the buffer are not differences
+    for key in list(classes):
+        if key[0] != "differ":
+            continue
+        keep = []
+        for f in classes[key]:
+            vals = [x.rstrip("*") for x in f["results"]]
+            if all(v == vals[0] for v in vals) and f["args"] and \
+                    nan_sign_only(st, f["prog"].text(), "prog " + f["entry"] + " " + " ".join(f["args"]) + "\n"):
+                n_nan += 1
+            else:
+                keep.append(f)
+        if keep:
+            classes[key] = keep
+        else:
+            del classes[key]
     for key, fl in classes.items():
         f = fl[0]
         text = f["prog"].text()
@@ -583,9 +651,9 @@ def stage_programs(ck, st, nprogs, per_batch, viol, known_present):
             sigs = attribute_ub(st, text, plan, True)
             if sigs:
                 sig = sigs[0]
-                n_wrap += len(fl)
+                n_wrap += len({f_['entry'] for f_ in fl})
                 for s_ in sigs:
-                    ub_counts[s_] = ub_counts.get(s_, 0) + len(fl)
+                    ub_counts[s_] = ub_counts.get(s_, 0) + len({f_['entry'] for f_ in fl})
         rep = {"stage": "programs", "kind": f["kind"], "entry": f["entry"], "plan": plan, "engines": ENGS,
                "results_per_engine": f["results"], "same_class_count": len(fl), "how_to_rerun": "./check C20 --replay <this file>"}
         if sig is None:
@@ -603,7 +671,7 @@ def stage_programs(ck, st, nprogs, per_batch, viol, known_present):
                      else f"translation pipeline aborted on a well-defined program: {str(f['results'])[:240]}")))
     return {"programs": nprogs, "evaluations": nev * len(ENGS), "constructs": stats, "rewritten_known_defect_insns": nrew,
             "failure_classes": len(classes), "programs_where_only_the_O2_build_without_fwrapv_fno_strict_aliasing_differs": n_wrap,
-            "of_these_repaired_by": ub_counts, "options": opts}
+            "of_these_repaired_by": ub_counts, "evaluations_differing_only_in_the_sign_of_a_stored_NaN": n_nan, "options": opts}
 
 
 # ------------------------------------------------------------------------------------------------ stage C
@@ -809,12 +877,20 @@ def cc_kinds(errtext):
     """gcc's error lines -> set of finding signatures (None for an unlisted kind of error)"""
     kinds = set()
     for l in errtext.split("\n"):
-        if "error" not in l:
+        if ": error: " not in l:
             continue
         if "requires a named argument before" in l:
             kinds.add(SIG_VARIADIC)
         elif re.search(r"before ‘\.’ token|before '\.' token|stray ‘\.’|expected .* before numeric constant", l):
             kinds.add(SIG_NAME)
+        elif re.search(r"redefinition of parameter|conflicting types for|type of formal parameter \d+ is incomplete", l):
+            kinds.add(SIG_DUPPARAM)
+        elif "undeclared (first use in this function)" in l:
+            kinds.add(SIG_UNDECL)
+        elif "follows non-static declaration" in l:
+            kinds.add(SIG_STATIC)
+        elif "redeclared as different kind of symbol" in l:
+            kinds.add(SIG_HDR)
         else:
             kinds.add(None)
     return kinds
@@ -837,7 +913,7 @@ def stage_corpus(ck, st, quick, viol):
                 p = subprocess.run(["gcc", "-fsyntax-only", "-w", *std.split(), cfile], stdout=subprocess.PIPE, stderr=subprocess.STDOUT, text=True)
                 res["cc_" + nm] = p.returncode
                 if p.returncode != 0:
-                    res["cc_err_" + nm] = "\n".join(l for l in p.stdout.split("\n") if "error" in l)[:4000]
+                    res["cc_err_" + nm] = "\n".join(l for l in p.stdout.split("\n") if ": error: " in l)[:4000]
                 else:
                     break
         for p_ in (mir, cfile):
@@ -864,13 +940,17 @@ def stage_corpus(ck, st, quick, viol):
             cls, sig = "assert: opcode without template", SIG_MISSING
         elif rc != 0 and "out_type: Assertion `MIR_blk_type_p (t)'" in r["err"]:
             cls, sig = "assert: rblk-typed parameter", SIG_BLK
+        elif rc != 0 and "out_item: Assertion `item->item_type == MIR_func_item'" in r["err"] and re.search(r":\s*lref\s", text):
+            cls, sig = "assert: lref data item", SIG_LREF
+        elif rc == 3 and re.search(r"undeclared name (inf|nan)", r["err"]):
+            cls, sig = "input not scannable: c2m -S printed an inf/nan literal (not a module of C20's domain)", "skip"
         elif rc != 0:
             cls, sig = f"emit-fails rc={rc} {sorted(fe)}", None
         elif r.get("cc_default") == 0:
             cls, sig = "translated+accepted", "ok"
         else:
             kinds = cc_kinds(ccerr)
-            if kinds and kinds <= {SIG_VARIADIC, SIG_NAME}:
+            if kinds and None not in kinds:
                 cls, sig = "rejected by gcc: " + "+".join(sorted(k.split(":")[1] for k in kinds)), tuple(sorted(kinds))
             else:
                 cls, sig = "translated, rejected by gcc", None
@@ -1008,7 +1088,7 @@ def body(ck, st, quick):
     ck.stage("templates", **{k: v for k, v in infoA.items() if k in ("evaluations", "functions", "failing_classes")})
     # ---- B
     known_present = bool(listed & {SIG_UGE, SIG_UBO})
-    infoB = stage_programs(ck, st, (160 if quick else 2400) if "B" in only else 0, 10 if quick else 20, viol, known_present)
+    infoB = stage_programs(ck, st, (300 if quick else 3000) if "B" in only else 0, 10 if quick else 20, viol, known_present)
     ck.stage("programs", programs=infoB["programs"], failure_classes=infoB["failure_classes"])
     # ---- C
     infoC, sampC = stage_sections(ck, st, (40 if quick else 400) if "C" in only else 0, loop_fixed, viol)
